@@ -11,7 +11,7 @@ rsync -a --exclude target --exclude replays --exclude .git /verif/ $MX/verif/
 grep -rl '"/repo"' $MX/verif/sim/Cargo.toml $MX/verif/sim/probe/Cargo.toml $MX/verif/sim-miri/Cargo.toml | xargs sed -i "s|\"/repo\"|\"$MX/repo\"|"
 # reuse compiled dependencies
 for t in sim sim-miri; do [ -d /verif/$t/target ] && cp -r /verif/$t/target $MX/verif/$t/target; done
-out=/verif/seeded/MATRIX-$tier.md
+out=/verif/seeded/MATRIX-$tier${3:+-$3}.md
 echo "| seeded change | C02 | C10 | C12 | C14 | C15 |" > $out.tmp; echo "|---|---|---|---|---|---|" >> $out.tmp
 # baseline row: unchanged tree must be quiet
 row="| (unchanged tree) |"
